@@ -107,6 +107,11 @@ def run(ctx):
     run_programs(ctx, progs, OSETS[:2], 'generated')
     folding(ctx)
     hoist_placement_correspondence(ctx, lits + progs[:ctx.scale(200, 2000)])
+    # T01.14 / T01.15 (behaviour is preserved by hoisting): the composed Lean model against minify(), with the side conditions
+    # evaluated on the witness read off the real output
+    from props import c01
+    import rungen
+    c01.minify_application(ctx, [('core%d' % i, rungen.core_program(ctx.rng)) for i in range(ctx.scale(60, 1500))], 'generated-core')
     for k in ctx.known:
         if k.get('replay_source'):
             run_programs(ctx, [(k['id'], k['replay_source'])], OSETS, 'known')
